@@ -126,6 +126,8 @@ func (txn *Txn) NewIterator(opt IteratorOptions) *TxnIterator {
 	}
 
 	atomic.AddInt32(&txn.numIterators, 1)
+	// Keep value-log GC from removing segments this iterator's snapshot still points into.
+	txn.db.vlog.incrIteratorCount()
 
 	var (
 		ctx   *iteratorContext
@@ -346,6 +348,7 @@ func (it *TxnIterator) Close() {
 	}
 	it.ctx = nil
 	atomic.AddInt32(&it.txn.numIterators, -1)
+	it.txn.db.vlog.decrIteratorCount()
 }
 
 // Next would advance the iterator by one. Always check it.Valid() after a Next()
